@@ -1138,7 +1138,10 @@ class MemoryCache:
         big_mem = MemoryCache._pd_mem_usage(big)
         m = (big_mem - small_mem) / (len(big) - len(small))
         b = big_mem - m * len(big)
-        return int(m * len(obj) + b)
+        # The line through two samples can fall anywhere when the heavy rows happen to land in
+        # the small split, even below zero. The whole object is at least as large as the part
+        # of it that was measured.
+        return max(int(m * len(obj) + b), big_mem)
 
     @staticmethod
     def _estimate_object_size(obj: object) -> int:
